@@ -247,9 +247,9 @@ Go's `unicode` tables say - all of these are universally quantified below. -/
 answers), every mapping (nil, or any assignment of index types to field names), either case setting and any nesting
 limit, the parser returns a query or an error: no `panic` statement is reachable (neither the type switch's old
 `default:` - repaired - nor `BUG: lexer is not end`) and every loop terminates (the fuel is never exhausted). -/
-theorem c12_total_lexer_tokens (cs : Bool) (mapping : Option (List (List Nat × FT))) (mx : Option Nat) (toks : List LTok) :
-    parseSeqQL ⟨false, cs, mapping⟩ mx toks ≠ .panic ∧ parseSeqQL ⟨false, cs, mapping⟩ mx toks ≠ .oof := by
-  let c : Cfg := ⟨false, cs, mapping⟩
+theorem c12_total_lexer_tokens (cs rl : Bool) (mapping : Option (List (List Nat × FT))) (mx : Option Nat) (toks : List LTok) :
+    parseSeqQL ⟨false, cs, mapping, rl⟩ mx toks ≠ .panic ∧ parseSeqQL ⟨false, cs, mapping, rl⟩ mx toks ≠ .oof := by
+  let c : Cfg := ⟨false, cs, mapping, rl⟩
   have hS := seqqlSkel_good c mx
   have hf := ((sq_spec (seqqlSkel c mx) hS (fuelFor toks)).2.1 toks 0 0 (by simp [fuelFor])).1
   have hp := (sq_nopanic (seqqlSkel c mx) (fun t => (fieldFilter_ne c t).2 rfl) (fuelFor toks)).2.1 toks 0 0
@@ -277,12 +277,12 @@ theorem c12_total_lexer_tokens (cs : Bool) (mapping : Option (List (List Nat × 
   | oof => exact absurd hres hf
 
 /-- ... in particular for the switch default and the nesting limit read from the source on this run -/
-theorem c12_total_lexer_tokens_extracted (cs : Bool) (mapping : Option (List (List Nat × FT))) (toks : List LTok) :
-    parseSeqQL ⟨SV.Extracted.C12.seqqlDefaultPanics, cs, mapping⟩ SV.Extracted.C12.seqqlMaxNest toks ≠ .panic ∧
-    parseSeqQL ⟨SV.Extracted.C12.seqqlDefaultPanics, cs, mapping⟩ SV.Extracted.C12.seqqlMaxNest toks ≠ .oof := by
+theorem c12_total_lexer_tokens_extracted (cs rl : Bool) (mapping : Option (List (List Nat × FT))) (toks : List LTok) :
+    parseSeqQL ⟨SV.Extracted.C12.seqqlDefaultPanics, cs, mapping, rl⟩ SV.Extracted.C12.seqqlMaxNest toks ≠ .panic ∧
+    parseSeqQL ⟨SV.Extracted.C12.seqqlDefaultPanics, cs, mapping, rl⟩ SV.Extracted.C12.seqqlMaxNest toks ≠ .oof := by
   have hS : SV.Extracted.C12.seqqlDefaultPanics = false := by decide
   rw [hS]
-  exact c12_total_lexer_tokens cs mapping _ toks
+  exact c12_total_lexer_tokens cs rl mapping _ toks
 
 /-- **Precedence above the lexer**: any token sequence of the reference grammar whose atoms are sequences the real
 field-filter parser accepts (`G` over `seqqlSkel`) is parsed to the tree it denotes; with `sep` one states which
@@ -366,6 +366,40 @@ theorem c12_range_bound_is_literal_term (cs : Bool) (toks rest : List LTok) (x :
     intro h; rw [h] at hne'; simp at hne'
   simp [fieldFilter, hname, hne'', hidx, hcolon, hval, hr, fieldCase]
 
+/-- **Legacy range bounds follow the same case rule** (repaired code, `rangeLower`): the `singleTermBuilder` fed the runes
+of a bound ends with the text term `lowerIf cs runes`, the term the legacy keyword builder makes of the same text
+(`c12_term_case_rule_agrees`); `parseLiteral` hands the range parser the field's case flag. -/
+theorem c12_legacy_range_bound_case (cs : Bool) (ws : List Rn) :
+    (ws.foldl (fun (s : Option BSt) r => s.bind fun b => b.appendRune r) (some (newBuilder .single cs))).map BSt.getTerm
+      = some ⟨false, lowerIf cs ws⟩ := by
+  have key : ∀ (ws : List Rn) (b : BSt), b.kind = .single → b.wildcard = false →
+      ws.foldl (fun (s : Option BSt) r => s.bind fun b => b.appendRune r) (some b)
+        = some { b with data := b.data ++ ws.map fun r => if b.tb.cs then r.cp else r.lower } := by
+    intro ws
+    induction ws with
+    | nil => intro b _ _; simp
+    | cons r rest ih =>
+      intro b hk hw
+      rw [List.foldl_cons]
+      have h1 : (some b).bind (fun b => b.appendRune r) = some { b with data := b.data ++ [if b.tb.cs then r.cp else r.lower] } := by
+        simp [BSt.appendRune, hk, hw]
+      rw [h1, ih { b with data := b.data ++ [if b.tb.cs then r.cp else r.lower] } hk hw]
+      simp [List.append_assoc]
+  rw [key ws (newBuilder .single cs) rfl rfl]
+  simp [BSt.getTerm, newBuilder, lowerIf]
+  intro a _; rfl
+
+/-- **Historical counterexample** (legacy parser before the range-bound repair, case-insensitive configuration): the
+bound of `a:[B TO B]` stays `B` while the literal `a:B` asks for `b` - the indexed tokens are lower case, so the range
+selects nothing although it names the very value; with `rangeLower` the bound is `b`. -/
+theorem c12_legacy_range_case_old_counterexample :
+    let r (c l : Nat) (letter : Bool) : Rn := ⟨[c], c, letter, false, false, l, c = 32⟩
+    let q := [r 97 97 true, r 58 58 false, r 91 91 false, r 66 98 true, r 32 32 false, r 84 116 true, r 79 111 true, r 32 32 false, r 66 98 true, r 93 93 false]
+    parseQueryRunes ⟨false, false, none, false⟩ none q = .ok (.leaf (.range [97] ⟨false, [66]⟩ ⟨false, [66]⟩ true true)) ∧
+    parseQueryRunes ⟨false, false, none, true⟩ none q = .ok (.leaf (.range [97] ⟨false, [98]⟩ ⟨false, [98]⟩ true true)) ∧
+    parseQueryRunes ⟨false, false, none, false⟩ none [r 97 97 true, r 58 58 false, r 66 98 true] = .ok (.leaf (.lit [97] [⟨false, [98]⟩])) := by
+  decide
+
 /-- **both query languages build the same term from the same text**: for a run of word runes (resp. any keyword value
 without wildcard) the SeqQL builders and the legacy `baseTokenBuilder` (`appendRuneInternal` rune by rune) end with
 the single text term `lowerIf cs runes` - the code points themselves when case sensitive, `unicode.ToLower` of each
@@ -410,13 +444,13 @@ theorem c12_quoted_literal_needs_closing_quote (h : QRn) (t : List QRn) :
 /-- **C12 totality of `ParseSeqQL` on strings**: for every query (any runes, any answers of the `unicode`, `strconv`
 and `EqualFold` oracles), every mapping, either case setting and any nesting limit: lexer, parser and NOT propagation
 together return a query or an error - no panic, no loop. -/
-theorem c12_total_seqql_runes (kwOf : List Rn → KW) (cs : Bool) (mapping : Option (List (List Nat × FT))) (mx : Option Nat)
+theorem c12_total_seqql_runes (kwOf : List Rn → KW) (cs rl : Bool) (mapping : Option (List (List Nat × FT))) (mx : Option Nat)
     (q : List QRn) :
-    parseSeqQLRunes kwOf ⟨false, cs, mapping⟩ mx q ≠ .panic ∧ parseSeqQLRunes kwOf ⟨false, cs, mapping⟩ mx q ≠ .oof := by
+    parseSeqQLRunes kwOf ⟨false, cs, mapping, rl⟩ mx q ≠ .panic ∧ parseSeqQLRunes kwOf ⟨false, cs, mapping, rl⟩ mx q ≠ .oof := by
   have hl := lexAll_spec (q.length + 1) q (Nat.le_refl _)
   unfold parseSeqQLRunes
-  exact ⟨PRes.bind_ne_panic' hl.2.1 (fun _ _ => (c12_total_lexer_tokens cs mapping mx _).1),
-    PRes.bind_ne_oof hl.1 (fun _ _ => (c12_total_lexer_tokens cs mapping mx _).2)⟩
+  exact ⟨PRes.bind_ne_panic' hl.2.1 (fun _ _ => (c12_total_lexer_tokens cs rl mapping mx _).1),
+    PRes.bind_ne_oof hl.1 (fun _ _ => (c12_total_lexer_tokens cs rl mapping mx _).2)⟩
 
 /-! ## the whole legacy parser at rune level (level B)
 
@@ -430,24 +464,24 @@ predicates), every mapping, either case setting and any nesting limit the legacy
 `tp.cur()` is never evaluated at the end of the input (`errorUnexpectedSymbol` included), `panic("quote not found")`,
 `panic("range start not found")` and `tokens[0]` of an empty slice are unreachable, the type switch returns an error,
 and all loops and recursions terminate. -/
-theorem c12_total_legacy_runes (cs : Bool) (mapping : Option (List (List Nat × FT))) (mx : Option Nat) (rs : List Rn) :
-    parseQueryRunes ⟨false, cs, mapping⟩ mx rs ≠ .panic ∧ parseQueryRunes ⟨false, cs, mapping⟩ mx rs ≠ .oof := by
+theorem c12_total_legacy_runes (cs rl : Bool) (mapping : Option (List (List Nat × FT))) (mx : Option Nat) (rs : List Rn) :
+    parseQueryRunes ⟨false, cs, mapping, rl⟩ mx rs ≠ .panic ∧ parseQueryRunes ⟨false, cs, mapping, rl⟩ mx rs ≠ .oof := by
   have hl := skipSpaces_len rs
-  have := ((lgr_spec ⟨false, cs, mapping⟩ rfl mx (2 * rs.length + 2)).2.1 (skipSpaces rs) 0 0 (skipSpaces_noLead rs) (by omega))
+  have := ((lgr_spec ⟨false, cs, mapping, rl⟩ rfl mx (2 * rs.length + 2)).2.1 (skipSpaces rs) 0 0 (skipSpaces_noLead rs) (by omega))
   unfold parseQueryRunes
   exact ⟨PRes.bind_ne_panic' this.2.1 (fun _ _ => by simp), PRes.bind_ne_oof this.1 (fun _ _ => by simp)⟩
 
 /-- ... at the switch default and the nesting limit read from the source on this run -/
-theorem c12_total_legacy_runes_extracted (cs : Bool) (mapping : Option (List (List Nat × FT))) (rs : List Rn) :
-    parseQueryRunes ⟨SV.Extracted.C12.legacyDefaultPanics, cs, mapping⟩ SV.Extracted.C12.legacyMaxNest rs ≠ .panic ∧
-    parseQueryRunes ⟨SV.Extracted.C12.legacyDefaultPanics, cs, mapping⟩ SV.Extracted.C12.legacyMaxNest rs ≠ .oof := by
+theorem c12_total_legacy_runes_extracted (cs rl : Bool) (mapping : Option (List (List Nat × FT))) (rs : List Rn) :
+    parseQueryRunes ⟨SV.Extracted.C12.legacyDefaultPanics, cs, mapping, rl⟩ SV.Extracted.C12.legacyMaxNest rs ≠ .panic ∧
+    parseQueryRunes ⟨SV.Extracted.C12.legacyDefaultPanics, cs, mapping, rl⟩ SV.Extracted.C12.legacyMaxNest rs ≠ .oof := by
   have hL : SV.Extracted.C12.legacyDefaultPanics = false := by decide
   rw [hL]
-  exact c12_total_legacy_runes cs mapping _ rs
+  exact c12_total_legacy_runes cs rl mapping _ rs
 
 /-- `ParseAggregationFilter` is total as well -/
-theorem c12_total_agg_filter (cs : Bool) (rs : List Rn) :
-    parseAggFilter false cs rs ≠ .panic ∧ parseAggFilter false cs rs ≠ .oof := by
+theorem c12_total_agg_filter (cs rl : Bool) (rs : List Rn) :
+    parseAggFilter false rl cs rs ≠ .panic ∧ parseAggFilter false rl cs rs ≠ .oof := by
   unfold parseAggFilter
   have hnl := skipSpaces_noLead rs
   cases hs : skipSpaces rs with
@@ -460,7 +494,7 @@ theorem c12_total_agg_filter (cs : Bool) (rs : List Rn) :
     · rename_i hempty
       have : (simpleTerm (r :: rest)).1 = [] := by simpa using hempty
       rw [simpleTerm_empty_word hr this, errUnexpected_cons]; simp
-    · have hq := legacyTokenQuery_spec cs (wordBytes (simpleTerm (r :: rest)).1) .keyword (simpleTerm (r :: rest)).2
+    · have hq := legacyTokenQuery_spec rl cs (wordBytes (simpleTerm (r :: rest)).1) .keyword (simpleTerm (r :: rest)).2
       refine ⟨PRes.bind_ne_panic' hq.2.1 ?_, PRes.bind_ne_oof hq.1 ?_⟩
       · intro b _; split <;> simp
       · intro b _; split <;> simp
@@ -653,6 +687,22 @@ theorem c12_x_range_bounds :
     rangeTermAssigns = ["term.Kind = TermText", "*term = terms[0]", "*term = Term{ Kind: TermText, Data: \"\", "] ∧
     rangeTrimCalls = [] ∧ tokenRangeCalls = ["parseRangeTerm", "parseRangeTerm"] := by decide
 
+/-- the legacy range-bound builder: either the code before the repair (bounds kept as written: `legacyRangeLowercases =
+false`, the model's `rangeLower = false`) or the repaired one (`singleTermBuilder.caseSensitive`, set from the field's
+flag that `parseLiteral` passes down through `parseRange` / `parseRangeTerm`) -/
+theorem c12_x_legacy_range_case :
+    (legacyRangeLowercases = false ∧
+      singleTermAppendRuneBody = ["if b.wildcard { return fmt.Errorf(\"only single wildcard is allowed\") }",
+        "b.data = utf8.AppendRune(b.data, r)", "return nil"] ∧
+      legacyRangeCaseCalls = ["parseRange: tp.parseRangeTerm(&r.From)", "parseRange: tp.parseRangeTerm(&r.To)",
+        "parseRangeTerm: singleTermBuilder{}", "parseLiteral: tp.parseRange(r)"]) ∨
+    (legacyRangeLowercases = true ∧
+      singleTermAppendRuneBody = ["if b.wildcard { return fmt.Errorf(\"only single wildcard is allowed\") }",
+        "if !b.caseSensitive { r = unicode.ToLower(r) }", "b.data = utf8.AppendRune(b.data, r)", "return nil"] ∧
+      legacyRangeCaseCalls = ["parseRange: tp.parseRangeTerm(&r.From, caseSensitive)", "parseRange: tp.parseRangeTerm(&r.To, caseSensitive)",
+        "parseRangeTerm: singleTermBuilder{caseSensitive: caseSensitive}", "parseLiteral: tp.parseRange(r, caseSensitive)"]) := by
+  decide
+
 /-- the word-rune predicates of both text term builders are `IsLetter || IsNumber || '_' || '*'` (what
 `SV.Parser.isWordRune` transcribes: `r.letter || r.number || cp = 95 || cp = 42`), the lexer's token runes are
 `IsLetter || IsDigit || '_' || '.'` (`isTokenRune`), and `unquotePrefix` keeps its final closing-quote check -/
@@ -712,7 +762,7 @@ example :
     let b : LTok := ⟨[⟨[98], 98, true, false, false, 98, false⟩], false, true, .none⟩
     let f : LTok := ⟨[⟨[102], 102, true, false, false, 102, false⟩], false, false, .none⟩
     let kwt (k : KW) (c : Nat) : LTok := ⟨[⟨[c], c, false, false, false, c, false⟩], false, false, k⟩
-    parseSeqQL ⟨false, true, none⟩ (some 1000) [f, kwt .colon 58, ⟨[⟨[105], 105, true, false, false, 105, false⟩, ⟨[110], 110, true, false, false, 110, false⟩], false, false, .in_⟩,
+    parseSeqQL ⟨false, true, none, true⟩ (some 1000) [f, kwt .colon 58, ⟨[⟨[105], 105, true, false, false, 105, false⟩, ⟨[110], 110, true, false, false, 110, false⟩], false, false, .in_⟩,
       kwt .lp 40, a, kwt .comma 44, b, kwt .rp 41]
     = .ok (.bin .or (.leaf (.lit [102] [⟨false, [97]⟩])) (.leaf (.lit [102] [⟨false, [98]⟩])), []) := by decide
 
@@ -733,10 +783,10 @@ example :
   decide
 
 /-- legacy rune level: `a:b` (nil mapping) parses to the literal `a:b`; `a:` ends in an error, not in `tp.cur()` past the end -/
-example : parseQueryRunes ⟨false, true, none⟩ (some 1000)
+example : parseQueryRunes ⟨false, true, none, true⟩ (some 1000)
     [⟨[97], 97, true, false, false, 97, false⟩, ⟨[58], 58, false, false, false, 58, false⟩, ⟨[98], 98, true, false, false, 98, false⟩]
     = .ok (.leaf (.lit [97] [⟨false, [98]⟩])) := by decide
-example : parseQueryRunes ⟨false, true, none⟩ (some 1000)
+example : parseQueryRunes ⟨false, true, none, true⟩ (some 1000)
     [⟨[97], 97, true, false, false, 97, false⟩, ⟨[58], 58, false, false, false, 58, false⟩] = .err := by decide
 
 /-- composition with C02 on a concrete query: `a and not b` is rewritten to `NAND b a`; C02's `docMatches` accepts the
